@@ -3,14 +3,14 @@ import os, re
 import vlib, gen
 from gen_prog import FLAG
 
-LEVEL = "other"
+LEVEL = "proof"
 FAMILY = "shatree"
 
 MANIFEST = {
- "level": "other",
- "text": "Proved (Props/C23.v) for every tree and both cost models about two cost functions written with the named constants of the machine and operator models: native_cost (evaluator overhead + the closed formula of the sha256tree operator proved in C10) is smaller than clvm_cost (a structural recurrence for the standard recursive ChiaLisp sha256tree program of tools/src/bin/sha256tree-benching.rs, derived from the evaluation loop), with a gap of at least 1000 per atom and 500 per pair; the per-byte costs of sha256tree and sha256 are equal in both models, which is why the inequality survives arbitrarily large atoms. Every constant and the program's hex string are compared with the source on every run (Pins/C23consts.v). That the two functions are what run_program charges is proved by symbolic execution of the stack machine where Props/C23.v says so (see its header for the exact state) and is otherwise established by computation on small trees (tests) and, on every run, against the implementation: both programs are run on generated trees under both cost models; native < clvm is checked on the implementation itself, both runs are compared with the extracted model, and both costs with the closed forms evaluated by the extracted model.",
- "note": vlib.NOTE_COMMON + " Level 'other': see text and the header of Props/C23.v.",
- "technique": "Coq proof (induction over the tree on closed cost forms; symbolic execution of the evaluation loop) + model/implementation differential run + implementation search (native vs ChiaLisp cost on generated trees, shared and unshared)",
+ "level": "proof",
+ "text": "Proved for every tree, every flag word that enables the operator (both cost models, with or without ENABLE_GC and the other flags), every budget and every sufficient fuel about the Gallina model of run_program.rs under ChiaDialect (Props/C23.v): whenever the standard recursive ChiaLisp sha256tree program (the one in tools/src/bin/sha256tree-benching.rs, pinned to its hex string) run on the tree fits the budget, (sha256tree (q . tree)) succeeds too, both return the tree hash, and the native run is cheaper - by at least 1000 per atom and 500 per pair. The proof is a symbolic execution of the recursive program on the stack machine by induction on the tree (cost = a structural recurrence clvm_cost), the closed cost formula of the operator (native_cost, the C10 formula plus evaluator overhead), and an arithmetic induction native_cost < clvm_cost; the per-byte costs of sha256tree and sha256 are equal in both models, which is why the inequality survives arbitrarily large atoms. The only premise on the hash function is that its results are 32 bytes long (proved for the model's executable SHA-256). Every constant entering the two cost functions is compared with the source on every run (Pins/C23consts.v). On every run both programs are run on the implementation on generated trees (all shapes, atoms from the small integers to 10^6 bytes, built with and without shared sub-trees) under both cost models; native < clvm is checked on the implementation itself, both runs are compared with the extracted model, and both costs with the closed forms the theorem is about.",
+ "note": vlib.NOTE_COMMON + " The allocator caps and STACK_SIZE_LIMIT are outside the tree-store machine, and a model tree has no sharing: the theorems are about runs that hit no cap; sharing is covered by the implementation runs (equal sub-trees built once).",
+ "technique": "Coq proof (symbolic execution of the recursive program on the stack machine by induction over the tree; closed cost forms; arithmetic induction) + model/implementation differential run + implementation search (native vs ChiaLisp cost on generated trees, shared and unshared)",
 }
 
 EXTRA_FLAGS = [0x1, 0x2, 0x10, 0x20, 0x100, 0x200, 0x800, 0x1000]
@@ -171,9 +171,11 @@ def run(ctx):
                 "10^6 repeated bytes), each under ENABLE_SHA256_TREE with and without NEW_COST_MODEL (+ random unrelated flags), "
                 "built with and without sharing of equal sub-trees; `(sha256tree (q . T))` and the tool's ChiaLisp program are both "
                 "run with run_program on the implementation; non-trivial = distinct (tree, flags, sharing) where both runs succeed")
-    ctx.explanation = ("Theorems (Props/C23.v) + differential run. The check asks the implementation for both costs and compares them "
-                       "with each other (the property), with the extracted model's run of both programs, and with the closed forms "
-                       "native_cost / clvm_cost the inequality theorem is about.")
+    ctx.explanation = ("Proof + differential run. Theorems (Props/C23.v): C23 (both runs succeed with the same hash and the native one is "
+                       "cheaper, for every tree, flag word with ENABLE_SHA256_TREE, fitting budget), C23_native_is_run, C23_clvm_is_run "
+                       "(symbolic execution of the stack machine), C23_native_lt_clvm, C23_gap. The check asks the implementation for both "
+                       "costs and compares them with each other (the property), with the extracted model's run of both programs, and "
+                       "with the closed forms native_cost / clvm_cost the theorems are about.")
     ctx.proofs()
     if not ctx.build():
         return
